@@ -9,7 +9,9 @@ ROOT="$(cd "$(dirname "$0")/.." && pwd)"
 if [ -n "$(git -C /repo status --porcelain -- src)" ]; then echo "refusing: /repo has local changes"; exit 2; fi
 SAVE=$(mktemp -d)
 cp -a "$ROOT/evidence/." "$SAVE/" 2>/dev/null
-trap 'git -C /repo checkout -- . ; cp -a "$SAVE/." "$ROOT/evidence/" 2>/dev/null; rm -rf "$SAVE"' EXIT
+# (the harness binaries are rebuilt against the restored tree at the end, so that nobody who runs
+#  harness/target/release/rtamc directly afterwards gets the binary of the changed tree)
+trap 'git -C /repo checkout -- . ; cp -a "$SAVE/." "$ROOT/evidence/" 2>/dev/null; rm -rf "$SAVE"; "$ROOT/run.sh" setup >/dev/null 2>&1' EXIT
 if ! git -C /repo apply "$PATCH"; then echo "patch does not apply"; exit 2; fi
 for id in "$@"; do
   LOG=$(mktemp)
